@@ -189,3 +189,46 @@ var (
 func init() {}
 
 func init() { _ = V1; _ = V2 }
+
+// parenthesised operands and literals in simplifiable conditions
+func parenConds(x, y int, f float64, s string) bool {
+	a := x > (1) && x < (3)
+	b := (x) >= (0x10) && (x) <= ((0x10))
+	c := !(x == (y)) || !(!(x > (y)))
+	d := (f) > (1.5) && (f) < (2.5)
+	e := ((x)) < (-10) && ((x)) > (10)
+	g := x == (1) || x == (2) || (x) == (1)
+	h := (len(s)) >= (0) && (len(s) < (0))
+	return a || b || c || d || e || g || h
+}
+
+// local declarations in every form
+func localDecls() int {
+	const (
+		mon = iota
+		tue
+		wed
+	)
+	const (
+		k1, k2 = 1, 2
+		k3, k4
+	)
+	const single = 3
+	var (
+		v1, v2 int
+		v3     = 1
+		v4, v5 = two()
+		_      = 0
+	)
+	var w1, w2 = 1, "s"
+	type (
+		local1 int
+		local2 = string
+	)
+	var append, copy, len, new, nil_ int
+	var fmt, os, strings int
+	_, _, _, _, _, _ = v1, v2, v3, v4, v5, w1
+	_, _ = w2, local1(0)
+	_ = local2("")
+	return mon + tue + wed + k1 + k2 + k3 + k4 + single + append + copy + len + new + nil_ + fmt + os + strings
+}
